@@ -233,7 +233,8 @@ pub fn make_case_t(progs: &[Vec<L>], mailbox: Mailbox, yields: u8, bound: Option
         }
     }
     let desc = format!(
-        "fifo mailbox={} yields={} slow={:?} progs={}",
+        "fifo{} mailbox={} yields={} slow={:?} progs={}",
+        crate::progscene::variant_tag(),
         mailbox.name(),
         yields,
         slow,
@@ -243,7 +244,7 @@ pub fn make_case_t(progs: &[Vec<L>], mailbox: Mailbox, yields: u8, bound: Option
         desc,
         exec: ExecCfg::default(),
         bound,
-        scene: Box::new(ProgScene { attach: crate::progscene::Attach::None, spawn, roles: vec![role], clients, extra: X { nsub, abandoned: slow.map(|k| msg_id(0, k)) }, oracle }),
+        scene: Box::new(ProgScene { attach: crate::progscene::attach_for(mailbox), spawn, roles: vec![role], clients, extra: X { nsub, abandoned: slow.map(|k| msg_id(0, k)) }, oracle }),
     }
 }
 
@@ -256,7 +257,7 @@ pub fn seqs(alpha: &[L], n: usize) -> Vec<Vec<L>> {
     out
 }
 
-fn cases(tier: Tier) -> Vec<Case> {
+fn plain_cases(tier: Tier) -> Vec<Case> {
     let mut v = vec![];
     let mailboxes = [Mailbox::U, Mailbox::B(0), Mailbox::B(1), Mailbox::B(2)];
     let own_alpha: Vec<L> = ALL.iter().copied().chain([L::SendOwn, L::CallOwn]).collect();
@@ -352,6 +353,21 @@ fn cases(tier: Tier) -> Vec<Case> {
             }
         }
     }
+    v
+}
+
+/// The family on the plain event loop, plus (every third case in the quick tier, all of them in
+/// the thorough tier) the same programs on the stream loop: the actor is attached to a stream
+/// that stays open and never yields, so `create_loop_on_stream` serves the mailbox.
+fn cases(tier: Tier) -> Vec<Case> {
+    let mut v = plain_cases(tier);
+    let s = crate::progscene::with_stream_variant(|| plain_cases(tier));
+    v.extend(s.into_iter().enumerate().filter(|(i, c)| (tier == Tier::Thorough || i % 3 == 0)).map(|(_, mut c)| {
+        // the attached stream is never ready, so the loop's select! tie-break cannot change anything:
+        // it is not explored as a choice here (C13 explores it, with streams that do yield)
+        c.exec.select_choice = false;
+        c
+    }));
     v
 }
 
